@@ -84,10 +84,11 @@ CLAIMED = {
                   "write_rows, write_cell and read_cell that every call violating a stated condition (column length != row count, "
                   "neither index nor name given - index 0 being a legal index -, malformed cell address, row count / index count "
                   "mismatch, row index beyond the last row) is refused with the stated error BEFORE the first write, and that these "
-                  "errors are raised only under those conditions. Cell-level fidelity, column typing and persistence are NumPy "
+                  "errors are raised only under those conditions; and for a multi-row write_rows (body verified past the prefix, loop "
+                  "invariant over the rows) that it issues exactly one block write whose selection is the index list as given. Cell-level fidelity, column typing and persistence are NumPy "
                   "structured-array / h5py compound-type behaviour and are assumed.",
              note="Prefix mode: each function is executed symbolically up to its first statement outside the modelled subset (raw "
-                  "h5py / structured arrays); nothing is claimed about the code after that point. create_data_frame's schema "
+                  "h5py / structured arrays); nothing is claimed about the code after that point (except write_rows#addr, which runs to the end). create_data_frame's schema "
                   "derivation and cell-level fidelity are covered only by the bounded battery C16/bounded/c16.", ref="7 C16"),
  "C18": dict(text="Partial (task scheduling only): deductive proof over all header versions and detector outcomes that collect_tasks "
                   "returns no task for an up-to-date file (so upgrading it writes nothing), and otherwise a list that ends with the "
